@@ -1,0 +1,171 @@
+//go:build verif
+
+package reader
+
+// Contracts for gvc (contract-based deductive verification, see /verif/DESIGN.md).
+// Comment-only file, compiled only under the build tag "verif".
+//
+// C20, lock discipline of a shared Reader: the configuration fields are only touched with the reader's mutex held by
+// the current call (or on a reader allocated in this call); the remaining fields are never written after construction;
+// every public method takes the mutex first and releases it on every path, and ReadDocument holds it for the whole
+// read, so that calls on one Reader are serialised. The steps of the read run under that lock: the contract of the
+// step type carries it, and every function used as a step is verified against that contract.
+//@ guarded Reader.skipPace, Reader.skipImages, Reader.aaChallenge by mu for C20
+//@ immutable Reader.status, Reader.nfc, Reader.cscaCertPool for C20
+
+// what every step may rely on: a transport that is set up, and a result object to fill in
+//@ pred readerOK(reader *Reader) { reader != nil && validNfc(reader.nfc) && reader.nfc.readFileMaxChunks >= 0 && reader.nfc.readFileMaxTlvLength <= 65535 && reader.cscaCertPool != nil }
+//@ pred stateOK(state *ReaderState) { state != nil && state.docEx != nil && state.password != nil && docWF(state.docEx.Document) }
+// the files held so far are complete objects (what their constructors return)
+//@ pred docWF(d document.Document) { (d.Mf.Lds1.Sod != nil ==> d.Mf.Lds1.Sod.SD != nil && d.Mf.Lds1.Sod.LdsSecurityObject != nil)
+//@        && (d.Mf.CardSecurity != nil ==> d.Mf.CardSecurity.SD != nil && d.Mf.CardSecurity.SecurityInfos != nil)
+//@        && (d.Mf.Lds1.Dg14 != nil ==> d.Mf.Lds1.Dg14.SecInfos != nil)
+//@        && (d.Mf.CardAccess != nil ==> d.Mf.CardAccess.SecurityInfos != nil) }
+
+// progress callback supplied by the host (arbitrary code): assumed not to touch the reader or the session. Trusted.
+//@ func (s ReaderStatus) Status(status Status)
+//@   trusted
+//@   assigns nothing
+
+//@ func NewReader
+//@   props C20
+//@   ensures "new-unlocked-reader": result != nil && fresh(result) && !result.mu.held && result.nfc == nfc && result.status == status && result.cscaCertPool == cscaCertPool
+//@   ensures "defaults": !result.skipPace && !result.skipImages && result.aaChallenge == nil
+//@   assigns nothing
+//@   safety all
+
+//@ func (reader *Reader) SkipPace
+//@   props C20
+//@   requires reader != nil && !reader.mu.held
+//@   ensures "lock-released": !reader.mu.held
+//@   ensures reader.skipPace
+//@   assigns reader.skipPace, reader.mu
+//@   safety all
+
+//@ func (reader *Reader) SkipImages
+//@   props C20
+//@   requires reader != nil && !reader.mu.held
+//@   ensures "lock-released": !reader.mu.held
+//@   ensures reader.skipImages
+//@   assigns reader.skipImages, reader.mu
+//@   safety all
+
+//@ func (reader *Reader) WithAAChallenge
+//@   props C20
+//@   requires reader != nil && !reader.mu.held
+//@   ensures "lock-released": !reader.mu.held
+//@   ensures "eight-octets-or-rejected": (result1 == nil) == (len(challenge) == 8)
+//@   ensures "stored-as-a-private-copy": result1 == nil ==> result0 == reader && reader.aaChallenge === challenge && reader.aaChallenge != nil && fresh(reader.aaChallenge)
+//@   ensures "rejected-challenge-changes-nothing": result1 != nil ==> result0 == nil && reader.aaChallenge == old(reader.aaChallenge)
+//@   assigns reader.aaChallenge, reader.mu
+//@   safety all
+
+//@ func NewReaderState
+//@   props C20
+//@   ensures result != nil && fresh(result) && result.docEx != nil && fresh(result.docEx) && result.password == password
+//@   ensures "empty-document": result.docEx.Document.Mf.Lds1.Sod == nil && result.docEx.Document.Mf.CardSecurity == nil && result.docEx.Document.Mf.Lds1.Dg14 == nil && result.docEx.Document.Mf.CardAccess == nil
+//@   assigns nothing
+//@   safety all
+
+//@ func (reader *Reader) report
+//@   props C20
+//@   requires reader != nil
+//@   assigns nothing
+//@   safety all
+//@ func (reader *Reader) reportPhase
+//@   props C20
+//@   requires reader != nil
+//@   assigns nothing
+//@   safety all
+//@ func (reader *Reader) reportDataGroup
+//@   props C20
+//@   requires reader != nil
+//@   assigns nothing
+//@   safety all
+
+// ---- the steps of a read: every one runs with the reader's mutex held and leaves it held
+//@ func (f ReaderStep) call(reader, state) (err error)
+//@   requires readerOK(reader) && stateOK(state) && reader.mu.held
+//@   ensures "lock-still-held": reader.mu.held
+//@   ensures "reader-and-state-still-usable": readerOK(reader) && stateOK(state)
+//@   ensures "configuration-untouched": reader.skipPace == old(reader.skipPace) && reader.skipImages == old(reader.skipImages) && reader.aaChallenge == old(reader.aaChallenge)
+
+//@ func runSteps
+//@   props C20
+//@   requires readerOK(reader) && stateOK(state) && reader.mu.held
+//@   ensures "lock-still-held": reader.mu.held
+//@   ensures "reader-and-state-still-usable": readerOK(reader) && stateOK(state)
+//@   loop 1 invariant readerOK(reader) && stateOK(state) && reader.mu.held
+//@   safety bounds overflow      // a nil step would panic (contained by ReadDocument's recover); it is not a locking matter
+
+//@ func recordAtrAts(reader, state)
+//@   props C20
+//@   implements ReaderStep
+//@   safety all
+
+//@ func selectMF(reader, state)
+//@   props C20
+//@   implements ReaderStep
+//@   safety all
+
+//@ func selectMrtdApplication(reader, state)
+//@   props C20
+//@   implements ReaderStep
+//@   safety all
+
+//@ func readEfSod(reader, state)
+//@   props C20
+//@   implements ReaderStep
+//@   safety all
+
+//@ func readEfCom(reader, state)
+//@   props C20
+//@   implements ReaderStep
+//@   safety all
+
+//@ func readEfDir(reader, state)
+//@   props C20
+//@   implements ReaderStep
+//@   safety all
+
+//@ func readEfCardAccess(reader, state)
+//@   props C20
+//@   implements ReaderStep
+//@   safety all
+
+//@ func readLDS1dgs(reader, state)
+//@   props C20
+//@   implements ReaderStep
+//@   loop 1 invariant readerOK(reader) && stateOK(state)
+//@   safety all
+
+//@ func performPace(reader, state)
+//@   props C20
+//@   implements ReaderStep
+//@   safety all
+
+//@ func performBac(reader, state)
+//@   props C20
+//@   implements ReaderStep
+//@   safety all
+
+//@ func performChipAuthentication(reader, state)
+//@   props C20
+//@   implements ReaderStep
+//@   safety all
+
+//@ func performPassiveAuthentication(reader, state)
+//@   props C20
+//@   implements ReaderStep
+//@   safety all
+
+//@ func verifyDocument(reader, state)
+//@   props C20
+//@   implements ReaderStep
+//@   safety all
+
+//@ func (reader *Reader) ReadDocument
+//@   props C20
+//@   requires readerOK(reader) && !reader.mu.held && password != nil
+//@   ensures "lock-released": !reader.mu.held
+//@   safety all
